@@ -5,6 +5,8 @@
 //! Case: {"concurrency": null|k, "outer": bool (the whole run is polled inside an application span),
 //!        "scenarios": [{"id": s, "retry": null|n, "fails": k,
 //!        "filter": "warn" (the cucumber layer behind LevelFilter::WARN, messages emitted as warnings),
+//!        "hooks": {"before": [pre, yields, post] | null, "after": [pre, yields, post] | null} (before / after hooks that log
+//!                  inside their own spans; the "cb" record of a hook carries step id 90001 (before) / 90002 (after)),
 //!        "which_after": bool (a `which_scenario` classifier installed AFTER init_tracing()),
 //!         "steps": [{"id": st, "pre": n, "yields": n, "post": n, "inner": bool (messages are emitted inside a user
 //!                    span nested in the step's span), "under": bool (the message text contains double underscores)}]}]}
@@ -66,6 +68,8 @@ struct St {
     step_no: BTreeMap<u64, u64>,
     next_msg: u64,
     warn: bool,
+    hook_before: Option<(u64, u64, u64)>,
+    hook_after: Option<(u64, u64, u64)>,
     events: Vec<Value>,
 }
 thread_local! {
@@ -142,6 +146,44 @@ fn logging_step(_: &mut W, ctx: step::Context) -> LocalBoxFuture<'_, ()> {
     .boxed_local()
 }
 
+/// Body of a logging hook: `which` = 1 before, 2 after. Messages are emitted inside the hook's span.
+async fn hook_body(sc: &gherkin::Scenario, which: u64) {
+    let sid: u64 = sc.name.trim_start_matches('S').parse().unwrap_or(0);
+    let (cfg, k) = ST.with(|s| {
+        let s = s.borrow();
+        let v = s.visits.get(&sid).copied().unwrap_or(0);
+        // the before hook runs before the first step of the attempt (visits not yet bumped), the after hook after it
+        (if which == 1 { s.hook_before } else { s.hook_after }, if which == 1 { v } else { v.saturating_sub(1) })
+    });
+    let Some((pre, yields, post)) = cfg else { return };
+    let span = tracing::Span::current().id().map_or(0, |i| i.into_u64());
+    verif_trace::record("cbspan", sid * 1_000_000 + (90_000 + which) * 10 + k, span);
+    for _ in 0..pre {
+        emit(sid, span, false);
+    }
+    YieldN(yields).await;
+    for _ in 0..post {
+        emit(sid, span, false);
+    }
+}
+fn before_hook<'a>(
+    _: &'a gherkin::Feature,
+    _: Option<&'a gherkin::Rule>,
+    sc: &'a gherkin::Scenario,
+    _: &'a mut W,
+) -> LocalBoxFuture<'a, ()> {
+    hook_body(sc, 1).boxed_local()
+}
+fn after_hook<'a>(
+    _: &'a gherkin::Feature,
+    _: Option<&'a gherkin::Rule>,
+    sc: &'a gherkin::Scenario,
+    _: &'a event::ScenarioFinished,
+    _: Option<&'a mut W>,
+) -> LocalBoxFuture<'a, ()> {
+    hook_body(sc, 2).boxed_local()
+}
+
 struct Rec;
 impl Writer<W> for Rec {
     type Cli = cli::Empty;
@@ -212,40 +254,51 @@ fn main() {
     let warn = case["filter"].as_str() == Some("warn");
     ST.with(|x| x.borrow_mut().warn = warn);
     let which_after = case["which_after"].as_bool().unwrap_or(false);
+    let triple = |v: &Value| v.as_array().map(|a| (a[0].as_u64().unwrap_or(0), a[1].as_u64().unwrap_or(0), a[2].as_u64().unwrap_or(0)));
+    ST.with(|x| {
+        let mut x = x.borrow_mut();
+        x.hook_before = triple(&case["hooks"]["before"]);
+        x.hook_after = triple(&case["hooks"]["after"]);
+    });
     let res = std::panic::catch_unwind(move || {
         use tracing::Instrument as _;
         use tracing_subscriber::{Layer as _, layer::SubscriberExt as _};
-        let cuke = cucumber::Cucumber::<W, _, _, _, _, cli::Empty>::custom(
-            VecParser(vec![f]),
-            cucumber::runner::Basic::default()
-                .max_concurrent_scenarios(case["concurrency"].as_u64().map(|n| n as usize))
-                .given(regex::Regex::new("^log ").expect("re"), logging_step),
-            Rec,
-        );
-        // `filter: "warn"`: the cucumber layer sits behind a stricter level filter than the usual INFO
-        let cuke = if warn {
-            cuke.configure_and_init_tracing(
-                tracing_subscriber::fmt::format::DefaultFields::new(),
-                tracing_subscriber::fmt::format::Format::default(),
-                |layer| {
-                    tracing_subscriber::registry()
-                        .with(tracing_subscriber::filter::LevelFilter::WARN.and_then(layer))
-                },
-            )
-        } else {
-            cuke.init_tracing()
-        };
-        // `which_after`: the runner is customised AFTER the tracing integration has been switched on (a classifier
-        // that classifies like the default one: no scenario here is tagged @serial)
-        let run: futures::future::LocalBoxFuture<'static, ()> = if which_after {
-            cuke.which_scenario(|_, _, _| cucumber::runner::basic::ScenarioType::Concurrent)
-                .with_default_cli()
-                .run(())
-                .map(drop)
-                .boxed_local()
-        } else {
-            cuke.with_default_cli().run(()).map(drop).boxed_local()
-        };
+        // one expansion per runner type (hooks change the type of the runner)
+        macro_rules! launch {
+            ($runner:expr) => {{
+                let cuke = cucumber::Cucumber::<W, _, _, _, _, cli::Empty>::custom(VecParser(vec![f]), $runner, Rec);
+                // `filter: "warn"`: the cucumber layer sits behind a stricter level filter than the usual INFO
+                let cuke = if warn {
+                    cuke.configure_and_init_tracing(
+                        tracing_subscriber::fmt::format::DefaultFields::new(),
+                        tracing_subscriber::fmt::format::Format::default(),
+                        |layer| {
+                            tracing_subscriber::registry()
+                                .with(tracing_subscriber::filter::LevelFilter::WARN.and_then(layer))
+                        },
+                    )
+                } else {
+                    cuke.init_tracing()
+                };
+                // `which_after`: the runner is customised AFTER the tracing integration has been switched on (a
+                // classifier that classifies like the default one: no scenario here is tagged @serial)
+                let run: futures::future::LocalBoxFuture<'static, ()> = if which_after {
+                    cuke.which_scenario(|_, _, _| cucumber::runner::basic::ScenarioType::Concurrent)
+                        .with_default_cli()
+                        .run(())
+                        .map(drop)
+                        .boxed_local()
+                } else {
+                    cuke.with_default_cli().run(()).map(drop).boxed_local()
+                };
+                run
+            }};
+        }
+        let base = cucumber::runner::Basic::default()
+            .max_concurrent_scenarios(case["concurrency"].as_u64().map(|n| n as usize))
+            .given(regex::Regex::new("^log ").expect("re"), logging_step);
+        // `hooks`: before and after hooks that log inside their own spans
+        let run = if case["hooks"].is_object() { launch!(base.before(before_hook).after(after_hook)) } else { launch!(base) };
         if outer {
             // the subscriber is installed above, so the span is created lazily inside
             futures::executor::block_on(async move {
